@@ -3,6 +3,7 @@ package kernel
 import (
 	crand "crypto/rand"
 	"fmt"
+	"github.com/emitter-io/emitter/internal/message"
 	"github.com/emitter-io/emitter/internal/verifauto"
 	"io"
 	"os"
@@ -90,6 +91,9 @@ func RunOnce(t *testing.T, w *World, tape *Tape, trace bool, known []KnownFindin
 	// is a stream derived from the run's seed, so two runs of one seed draw the same "random" bytes
 	defer func(old io.Reader) { crand.Reader = old }(crand.Reader)
 	crand.Reader = &seededReader{x: tape.Seed ^ 0x5eed5eed5eed5eed}
+	// every run starts as a fresh process as far as message ids go (sequence counter 0, a nonce
+	// drawn from the run's own stream): what a run sees must not depend on the runs before it
+	message.VerifNewProcess()
 	res := &Result{}
 	body := func() {
 		defer func() {
